@@ -53,6 +53,10 @@ structure TextCase where
   masters : List (String × String) := []        -- name ↦ number text or formula
   minors : List String := []
   lines : List (List Char) := []
+  auto : Bool := false                          -- solution-level options are read from the text as well (Sol.readBlock / readRow)
+  bopts : List (List Char) := []                -- block-level option lines of a SOLUTION_SPREAD
+  cells : List (List Char × List Char × List Char) := []
+  isRow : Bool := false
 
 structure ConvCase where
   solUnit : Units.Unit := Units.Unit.molPerKgw
@@ -139,6 +143,11 @@ def step (st : State) (line : String) : State × List String :=
     match unhexStr u, num? dens, num? water, num? sum0 with
     | some u, some d, some w, some s0 => ({ st with txt := { unitsTok := u, density := d, water := w, sum0 := s0 } }, [])
     | _, _, _, _ => (st, ["bad-text"])
+  | ["text2", kind] => ({ st with txt := { auto := true, isRow := kind == "row" } }, [])
+  | ["bopt", l] =>
+    match unhexStr l with
+    | some l => ({ st with txt := { st.txt with bopts := st.txt.bopts ++ [l.toList] } }, [])
+    | none => (st, ["bad-bopt"])
   | ["pass2", dens, iter, kk] =>
     match num? dens, iter.toNat?, num? kk with
     | some d, some it, some k => ({ st with txt := { st.txt with pass2 := some (d, it, k) } }, [])
@@ -162,7 +171,8 @@ def step (st : State) (line : String) : State × List String :=
   | ["cell", h, d, u] =>
     match unhexStr h, unhexStr d, unhexStr u with
     | some h, some d, some u =>
-      ({ st with txt := { st.txt with lines := st.txt.lines ++ [Txt.spreadCell h.toList d.toList u.toList] } }, [])
+      ({ st with txt := { st.txt with lines := st.txt.lines ++ [Txt.spreadCell h.toList d.toList u.toList],
+                                      cells := st.txt.cells ++ [(h.toList, d.toList, u.toList)] } }, [])
     | _, _, _ => (st, ["bad-cell"])
   | ["gotext"] =>
     let c := st.txt
@@ -174,6 +184,36 @@ def step (st : State) (line : String) : State × List String :=
       | some (_, v) => match Txt.scanNum v.toList with
         | some x => if Txt.isDigitTok v.toList then some x else gfwOfFormula elt v
         | none => gfwOfFormula elt v
+    if c.auto then
+      -- everything from the text: settings (units, water, density, pH …) and constituents
+      match (if c.isRow then Sol.readRow c.bopts c.cells else Sol.readBlock c.lines) with
+      | none => ({ st with txt := {} }, ["bad-solution", "E"])
+      | some rd =>
+        match Sol.compsOf master (fun n => c.minors.contains n) rd with
+        | none => ({ st with txt := {} }, ["bad-line", "E"])
+        | some cl =>
+          let se := rd.set
+          let comps := (readComps cl).toList.map (·.2)
+          let gh := (elt "H").getD 0
+          let goh := gh + (elt "O").getD 0
+          let LOG10 : Float := Float.log 10.0
+          let phf := floatOfRat' se.ph
+          -- exp(-pH·ln10)·gfw(H) + exp((pH-14)·ln10)·gfw(OH), in doubles as the code does
+          let s0f : Float := Float.exp (-phf * LOG10) * floatOfRat' gh + Float.exp ((-14.0 + phf) * LOG10) * floatOfRat' goh
+          let p : Params := { solUnit := se.units, density := se.density, water := se.water, sum0 := ratOfBits s0f.toBits, elt := elt }
+          let r := convertUnits p ∅ comps
+          let after := comps.map (·.afterPass se.units.den se.density elt)
+          let out1 := [s!"S {hexStr se.units.str} {outNum se.water} {outNum se.density} {outNum se.ph} {outNum se.temp} {outNum se.pe} {if se.calcDens then 1 else 0}",
+                       s!"R {r.err} {outNum r.massWater} {hexStr se.units.str}"] ++
+            after.map (fun cc => s!"C {hexStr cc.name} {outNum cc.conc} {hexStr cc.unit.str} {hexStr cc.asName} {outNum cc.gfw}") ++
+            r.totals.toList.map (fun kv => s!"T {hexStr kv.1} {outNum kv.2}")
+          let out2 := match c.pass2 with
+            | none => []
+            | some (d2, it, kk) =>
+              let p2 : Params := { p with density := d2, densityIter := it, kgwKgs := kk }
+              (convertUnits p2 r.totals after).totals.toList.map (fun kv => s!"U {hexStr kv.1} {outNum kv.2}")
+          ({ st with txt := {} }, out1 ++ out2 ++ ["E"])
+    else
     -- `-units` of the block: check_units(token, false, false, "mMol/kgw", false); default mMol/kgw when absent
     let dflt : Option Units.Unit :=
       if c.unitsTok.isEmpty then some ⟨.milli, .mol, .perKgw⟩
